@@ -35,9 +35,7 @@ Definition first_rule (n : name) : option orule := nth_error G (orule_id G n).
 Fixpoint fail_clean (C : list name) (e : oexpr) : bool :=
   match e with
   | OIdent n =>
-      if is_fixed n then negb (str_eqb n (nm "POP") || str_eqb n (nm "POP_ALL"))
-      else if has_orule G n then existsb (str_eqb n) C
-      else true
+      negb (str_eqb n (nm "POP") || str_eqb n (nm "POP_ALL")) && (negb (has_orule G n) || existsb (str_eqb n) C)
   | OChoice a b => fail_clean C a && fail_clean C b
   | OPush x | ONodeTag x _ => fail_clean C x
   | _ => true     (* primitives that fail in place; sequence, look-ahead, restore_on_err restore; ?, * never fail *)
